@@ -1544,7 +1544,7 @@ _ical_pull(struct ical_parser_s p[static 1U])
 		 * to start with a single allowed whitespace in
 		 * which case we enter the normal chop_more
 		 * procedure */
-		if (LIKELY(*BP != ' ' && *BP != '\t')) {
+		if (LIKELY(!BZ || (*BP != ' ' && *BP != '\t'))) {
 			goto proc;
 		}
 		/* just get on with it */
@@ -1566,6 +1566,8 @@ chop_more:
 		size_t sz = sizeof(p->stash) - p->six;
 
 		p->six += esccpy(sp, sz, BP, BZ);
+		/* the stash has got it now, don't read it again */
+		BI += BZ;
 		if (eol != NULL) {
 			/* means at least we've seen a \n up there
 			 * leave a mark in the stash buffer so the
